@@ -223,6 +223,26 @@ def real_stream(chk, rng, n, stats):
                         break
 
 
+def spelling_grammar(max_comps):
+    """Every destination spelled with up to max_comps components from {.., ., sub, in2, link (-> ../in2), inl (-> sub),
+    missing}, relative and absolute (inside the sandbox), for one file in path mode: the grammar of ways to leave — or
+    not leave — the input directory."""
+    import itertools
+    comps = ["..", ".", "sub", "in2", "link", "inl", "zz"]
+    tree = [("out", "d", None), ("in2", "d", None), ("in2/z", "f", "Z"), ("in2/a", "f", "other"), ("in", "d", None), ("in/a", "f", "A"),
+            ("in/sub", "d", None), ("in/sub/s", "f", "S"), ("in/link", "l", "../in2"), ("in/inl", "l", "sub")]
+    for n in range(1, max_comps + 1):
+        for t in itertools.product(comps, repeat=n):
+            for leaf in ("t", None):
+                if leaf is None and n == 1:
+                    continue
+                rel = "/".join(t + ((leaf,) if leaf else ()))
+                for kind in ("text", "abs"):
+                    val = rel if kind == "text" else "in/" + rel
+                    yield {"tree": list(tree), "inputs": ["in"], "mode": "path", "strategy": "stop", "dry": False, "answers": [], "fault": None,
+                           "plan": [{"dir": "in", "spelled": "in", "rel": "a", "r": (kind, val)}], "variant": pipe.FIXED_VARIANT}
+
+
 def run(chk):
     rng = chk.rng
     quick = chk.tier == "quick"
@@ -243,6 +263,12 @@ def run(chk):
     for i in range(n_scn):
         mode = rng.choice(["name", "path", "path", "path", "directory"])
         scns.append(pipe.gen_scenario(rng, mode=mode, big=(i % 6 == 0)))
+    grammar = list(spelling_grammar(2 if quick else 4))
+    if not quick and len(grammar) > 12000:
+        rng.shuffle(grammar)
+        grammar = grammar[:12000]
+    stats["spelling_grammar_cases"] = len(grammar)
+    scns += grammar
     obss = []
     for s in scns:
         o = pipe.run_impl(s)
